@@ -36,7 +36,7 @@ impl Outcome {
 
 pub fn dispatch(rec: &J) -> Outcome {
     let kind = rec.get("kind").and_then(|p| p.as_str()).unwrap_or("");
-    if kind == "render" {
+    if kind == "render" || kind == "source" {
         return render::run(rec);
     }
     match rec.get("p").and_then(|p| p.as_str()).unwrap_or("") {
